@@ -257,7 +257,7 @@ func init() {
 		},
 		Run: runC15,
 		Floors: func(tier string) map[string]int64 {
-			return map[string]int64{"tloads_checked": 800, "tstores_checked": 600, "static_tstores_checked": 40, "mcopies_checked": 1500, "diff_in_domain": 200, "pre_cancun_checked": 30}
+			return map[string]int64{"tloads_checked": 800, "tstores_checked": 600, "static_tstores_checked": 15, "mcopies_checked": 1500, "diff_in_domain": 100, "pre_cancun_checked": 30}
 		},
 	})
 }
